@@ -78,4 +78,24 @@ theorem c13_layout : Gen.cfgLayout.tag = [83, 85, 80, 76, 65, 7] ∧ Gen.cfgLayo
 theorem c13_blank_rejected_repo : cfgAccept Gen.cfgLayout (erased Gen.cfgLayout.recLen) = false :=
   c13_blank_rejected Gen.cfgLayout (by decide) (by decide) (by decide)
 
+/-- **C13 (RAM follows flash)** the configuration in RAM is replaced by a submitted one only if the save
+    succeeded: with the copy guarded as it is in /repo (translator fact `Gen.formCommitGuarded`), for every
+    old sector content, every submitted record and every outcome of the erase and the write, a save that is
+    not reported successful leaves the configuration in RAM as it was; a successful one makes RAM and flash
+    hold the same record. -/
+theorem c13_repo_commit_guarded : Gen.formCommitGuarded = true := by decide
+
+theorem c13_ram_only_if_saved (L : CfgLayout) (sector ram new : Bytes) (e w : FlashOutcome)
+    (hfail : (cfgSave L sector new e w).1 = false) :
+    formCommit Gen.formCommitGuarded ram new (cfgSave L sector new e w).1 = ram := by
+  rw [c13_repo_commit_guarded, hfail]; rfl
+
+theorem c13_ram_equals_flash_after_save (L : CfgLayout) (sector ram new : Bytes) (e w : FlashOutcome)
+    (hlen : new.length = L.recLen) (hok : (cfgSave L sector new e w).1 = true) :
+    formCommit Gen.formCommitGuarded ram new (cfgSave L sector new e w).1 = (cfgSave L sector new e w).2 := by
+  rw [c13_repo_commit_guarded, hok]
+  have := c13_save_success_stores_record L sector new e w hlen hok
+  simp only [formCommit, if_true]
+  exact this.2.2.symm
+
 end SuplaVerif.C13
